@@ -3,8 +3,8 @@
 THREX_FILES="internal/app/plugins/poll/poll.go internal/api/api.go internal/aio/aio.go internal/kernel/system/system.go internal/app/subsystems/api/api.go internal/app/subsystems/aio/store/store.go internal/app/subsystems/aio/echo/echo.go"
 threx_build() {
   # extra args: "virtual=real" overlay pairs of a mutant (the rewriter then reads the patched copy)
-  local tmpd; tmpd=$(mktemp -d /verif/.ov/threx.XXXXXX) || return 1
-  go build -o /verif/bin/rewrite /verif/harness/cmd/rewrite/main.go || { rm -rf $tmpd; return 1; }
+  local tmpd; mkdir -p $VERIF/.ov $VERIF/bin; tmpd=$(mktemp -d $VERIF/.ov/threx.XXXXXX) || return 1
+  go build -o $VERIF/bin/rewrite $VERIF/harness/cmd/rewrite/main.go || { rm -rf $tmpd; return 1; }
   local pairs=() f src flags
   for f in $THREX_FILES; do
     src=$REPO/$f
@@ -12,7 +12,7 @@ threx_build() {
     flags=()
     [ "$f" = internal/kernel/system/system.go ] && flags=(-keepgo "<funclit>")
     mkdir -p $tmpd/$(dirname $f)
-    /verif/bin/rewrite $src $tmpd/$f "${flags[@]}" || { echo "rewriter cannot instrument $f" >&2; rm -rf $tmpd; return 1; }
+    $VERIF/bin/rewrite $src $tmpd/$f "${flags[@]}" || { echo "rewriter cannot instrument $f" >&2; rm -rf $tmpd; return 1; }
     pairs+=("$REPO/$f=$tmpd/$f")
   done
   # mutant files that are not instrumented pass through unchanged
